@@ -7,7 +7,7 @@
    is an embedded document: embedded = the path without map access) over an abstract map, and
    the results are compared.  NO proofs here. *)
 From Coq Require Import List Bool Arith ZArith Uint63.
-From GSP Require Import Conc.Sem Generated.CacheSkeleton.
+From GSP Require Import Conc.Sem Conc.LoaderModel Generated.CacheSkeleton.
 Import ListNotations.
 Open Scope list_scope.
 
@@ -127,3 +127,28 @@ Definition agrees (c : case) : bool :=
 
 Definition cmismatches (cs : list case) : list int :=
   map cs_id (filter (fun c => negb (agrees c)) cs).
+
+(* ------------------------------------------------------------------------------------ *)
+(* loader logs recorded on the implementation (stress runs, one url each): loads of many *)
+(* goroutines, the origin's answers, the stores into the cache.  The judgement is         *)
+(* LoaderModel.log_explained, which accepts every log of the model                        *)
+(* (LoaderTheory.model_log_explained): a log it rejects is not a behaviour of the model.  *)
+(* ------------------------------------------------------------------------------------ *)
+Inductive rawrec :=
+| rl (ts te res : int)          (* load: res = 0 failure, otherwise the version returned *)
+| rs (k fs fe ok : int)         (* origin answer: ok = 1 / 0 *)
+| rt (v x : int).               (* store of version v with expiry x; stores are listed in the order they happened *)
+
+Definition zi (i : int) : Z := Uint63.to_Z i.
+Definition rec_of (r : rawrec) : record :=
+  match r with
+  | rl ts te res => RLoad (zi ts) (zi te) (if Uint63.eqb res 0%uint63 then None else Some (zi res))
+  | rs k fs fe ok => RServe (zi k) (zi fs) (zi fe) (Uint63.eqb ok 1%uint63)
+  | rt v x => RStore (zi v) (zi x)
+  end.
+
+Record lcase := mklcase { lc_id : int; lc_log : list rawrec }.
+Definition mklc (id : int) (l : list rawrec) : lcase := mklcase id l.
+
+Definition lagrees (c : lcase) : bool := log_explained (map rec_of (lc_log c)).
+Definition lmismatches (cs : list lcase) : list int := map lc_id (filter (fun c => negb (lagrees c)) cs).
